@@ -200,6 +200,7 @@ type CItem struct {
 	Text  string `json:"text,omitempty"` // free text (no ':' ',')
 	Name  string `json:"name,omitempty"`
 	Value string `json:"value,omitempty"`
+	VSep  string `json:"vsep,omitempty"` // blanks between the colon and the value
 }
 
 type Comment struct {
@@ -216,7 +217,11 @@ func (c *Comment) Body() string {
 			sb.WriteString(", ")
 		}
 		if it.Tag {
-			sb.WriteString(it.Name + ":" + it.Value)
+			sb.WriteString(it.Name + ":")
+			if it.Value != "" {
+				sb.WriteString(it.VSep)
+			}
+			sb.WriteString(it.Value)
 		} else {
 			sb.WriteString(it.Text)
 		}
@@ -505,6 +510,7 @@ func renderComment(b *lineBuf, c *Comment, kind string) {
 			b.span("tagname", it.Name)
 			b.w(":")
 			if it.Value != "" {
+				b.w(it.VSep)
 				b.span("tagvalue", it.Value)
 			}
 		} else {
